@@ -348,7 +348,21 @@ def producers(prog, an, variant):
 
 def action_field(e, variant, field):
     sf = src_field(e)
-    return sf is not None and sf[0].endswith('TriggerAction') and sf[1] == variant and sf[2] == field
+    if sf is not None:
+        return sf[0].endswith('TriggerAction') and sf[1] == variant and sf[2] == field
+    # an or-pattern arm (`SendPadding { timeout, machine, .. } | BlockOutgoing { timeout, machine, .. }`): the binding is the
+    # same-named field of whichever variant matched, `variant` among them
+    from .tables import unwrap
+    x = unload(unwrap(e))
+    if isinstance(x, tuple) and x and x[0] == 'deref' and isinstance(x[1], tuple) and x[1] and x[1][0] in ('phi', 'pick'):
+        y = x[1] if x[1][0] == 'phi' else x[1][1]
+        if isinstance(y, tuple) and y and y[0] == 'phi' and all(isinstance(a, tuple) and a and a[0] in ('ref', 'refv') for a in y[1]):
+            x = ('phi', tuple(a[1] for a in y[1]))
+    if isinstance(x, tuple) and x and x[0] == 'phi':
+        fs = [src_field(a) for a in x[1]]
+        return all(f is not None and f[0].endswith('TriggerAction') and f[2] == field for f in fs) and any(f[1] == variant for f in fs) and \
+            len({f[1] for f in fs}) == len(fs)
+    return False
 
 
 # =================================================================== C16
@@ -542,6 +556,39 @@ def clearing_sites(fa):
     for (pe, v, site, mp) in stores(fa):
         if v[0] == 'agg' and v[2] == 'None' and v[1].endswith('Option') and is_it(pe) and any(e in ('*', '*raw') for e in mp['pr']):
             out.append(('= None', pe, site))
+    # `let id = slice.iter().position(pred)?; slice[id] = None` (normal form N2 turned position() into a counting loop whose counter
+    # is, by construction, the index of the element the iterator yielded last): the store clears the element the predicate accepted
+    for pl_ in getattr(fa.fn, 'position_loops', []):
+        if 'elem' not in pl_:
+            continue
+        for (pe, v, site, mp) in stores(fa):
+            if not (v[0] == 'agg' and v[2] == 'None' and v[1].endswith('Option')):
+                continue
+            x = unload(pe)
+            if not (isinstance(x, tuple) and x and x[0] == 'idx'):
+                continue
+            ix = x[2]
+            if not contains(ix, lambda y: y in (('rec', pl_['ctr']), ('local', pl_['ctr']), ('load', ('local', pl_['ctr'])))):
+                continue
+            # the indexed slice is the one the loop iterates over
+            nb = pl_['next_block']
+            tnx = fa.blocks[nb]['t']
+            itv = fa.call_value(tnx, (nb, len(fa.blocks[nb]['s']))) if tnx['k'] == 'call' else None
+            src_ok = False
+            itl = pl_['iter']
+            if itv is not None and itv[2] and itv[2][0][0] == 'ref' and itv[2][0][1][0] == 'local':
+                itl = itv[2][0][1][1]      # the iterator local the (forwarded) receiver borrows
+            for (bb, kk, part) in fa.defs().get(itl, []):
+                dv = fa.def_value(itl, bb, kk)
+                for y in walk(dv):
+                    if isinstance(y, tuple) and y and is_call(y, '<impl [T]>::iter') and strip_sites(unload(y[2][0][1]) if y[2][0][0] in ('ref', 'refv') else y[2][0]) == strip_sites(unload(x[1])):
+                        src_ok = True
+                    elif isinstance(y, tuple) and y and is_call(y, '<impl [T]>::iter') and show(strip_sites(y[2][0])).lstrip('&*') == show(strip_sites(x[1])).lstrip('&*'):
+                        src_ok = True
+            if not src_ok or itv is None:
+                continue
+            elem = ('pick', ('fld', ('var', itv, 'Some'), 'core::option::Option', '0'))
+            out.append(('position', ('deref', elem), site))
     for (b, f, a, t) in calls(fa):
         cs = callee_str(f)
         if (cs.endswith('Option::<T>::take') or cs.endswith('mem::take')) and a and is_it(a[0]):
@@ -704,6 +751,10 @@ def check_C17(ctx, rep):
             continue
         mine = [(pe, v, s) for (pe, v, s) in sa_stores if fa.cfg.dominates(arms[var], s[0])]
         if not mine:
+            # an arm shared with another variant through an or-pattern: the store follows the join of the binding blocks
+            mine = [(pe, v, s) for (pe, v, s) in sa_stores if s[0] in body and fa.cfg.can_reach(arms[var], s[0]) and
+                    count_between(fa, arms[var], h, {s[0]}) == (1, 1) and slot_index_ok(pe, 'scheduled_action', var)]
+        if not mine:
             # the slot may be written by a private helper called from the arm: helper(&mut slot[machine], action, time)
             okh = False
             why = 'no store and no helper call in the arm'
@@ -756,6 +807,18 @@ def check_C17(ctx, rep):
                 continue
             for S in pfh.on_edge(x, h):
                 if not any(f[0] == 'variant' and f[2] == 'Cancel' for f in S):
+                    continue
+                # one iteration looks at one (borrowed, unchanging) action: two tests of its timer with incompatible outcomes
+                # (`matches!(timer, Action | All)` then `matches!(timer, Internal | All)`) do not lie on one real path
+                byx = {}
+                infeasible = False
+                for f in S:
+                    if f[0] == 'variant' and f[2] in prog.variants('maybenot::action::Timer'):
+                        byx.setdefault(f[1], set()).add(f[2])
+                for f in S:
+                    if f[0] == 'notvariant' and f[1] in byx and byx[f[1]] & set(f[2]):
+                        infeasible = True
+                if any(len(v_) > 1 for v_ in byx.values()) or infeasible:
                     continue
                 tv = [f[2] for f in S if f[0] == 'variant' and f[2] in timers and contains(f[1], lambda y: action_field(y, 'Cancel', 'timer') or (isinstance(y, tuple) and y and y[0] == 'fld' and y[3] == 'timer'))]
                 tn = [f[2] for f in S if f[0] == 'notvariant']
@@ -1048,6 +1111,8 @@ def check_C18(ctx, rep):
             continue
         fa2 = an.get(fn)
         for (pe, v, site) in field_stores(fa2, 'scheduled_internal_timer', 'SimState'):
+            if fn.name == 'do_internal_timer' and v[0] == 'agg' and v[2] == 'None':
+                continue  # clearing the expired slot (judged by R2)
             rep.ob('C18.R1', fn, 'writer:scheduled_internal_timer', fn.name == 'trigger_update', 'written in %s' % fn.short())
     # ---- R2
     di = sim_fn(prog, 'do_internal_timer')
@@ -1066,7 +1131,14 @@ def check_C18(ctx, rep):
             rep.ob('C18.R2', sf, 'search-stops-at-first-match', ok, 'after clearing the slot (%s) the iterator is not advanced again' % kind)
             pfi = an.paths(sf)
             st = pfi.at(site[0], site[1]) if site[1] is not None else pfi.at_entry(site[0])
-            okm, w = all_paths(st, lambda S: due_fact(ctx, S, lambda l: True, lambda r: r[0] == 'param' and r[1] in inst))
+            def is_target(r):
+                # the target instant, or Some(target) when the whole slot is compared (`*t == Some(target)`)
+                while isinstance(r, tuple) and r and r[0] in ('refv', 'ref'):
+                    r = r[1]
+                if r[0] == 'param' and r[1] in inst:
+                    return True
+                return r[0] == 'agg' and r[2] == 'Some' and any(isinstance(v_, tuple) and v_[0] == 'param' and v_[1] in inst for (n_, v_) in r[3])
+            okm, w = all_paths(st, lambda S: due_fact(ctx, S, lambda l: True, is_target))
             rep.ob('C18.R2', sf, 'cleared-slot-is-the-due-one', okm and bool(st), '')
     for g in helpers:
         # the helper is applied to the timer slots with the target instant
